@@ -306,10 +306,12 @@ func scenarios(thorough bool) []scenario {
 		{Name: "earlier-then-later-same-priority", QuotaMax: 2, QueueSize: 2, TTL: time.Second, Arrivals: []arrival{{"A", "lo", 0}, {"B", "lo", 300 * time.Millisecond}}},
 		{Name: "timeout-then-refill-size1", QuotaW: 3, QuotaMax: 1, QueueSize: 1, TTL: time.Second, Arrivals: []arrival{{"R0", "lo", 0}, {"A", "lo", 150 * time.Millisecond}, {"B", "lo", 1300 * time.Millisecond}, {"C", "lo", 1400 * time.Millisecond}}},
 		{Name: "shutdown-with-waiter", QuotaMax: 1, QueueSize: 2, TTL: 2 * time.Second, Arrivals: []arrival{{"A", "lo", 0}, {"B", "lo", time.Millisecond}}, Shutdown: 250 * time.Millisecond},
+		// two waiters of one priority behind an admitted request: the first waiter is popped
+		// while the quota is still blocked and put back (it must keep its place)
+		{Name: "fifo-three-same-priority", QuotaMax: 1, QueueSize: 3, TTL: 3 * time.Second, Arrivals: []arrival{{"A", "lo", 0}, {"X", "lo", time.Millisecond}, {"Y", "lo", 2 * time.Millisecond}}},
 	}
 	if thorough {
 		sc = append(sc,
-			scenario{Name: "fifo-three-same-priority", QuotaMax: 1, QueueSize: 3, TTL: 3 * time.Second, Arrivals: []arrival{{"A", "lo", 0}, {"X", "lo", time.Millisecond}, {"Y", "lo", 2 * time.Millisecond}}},
 			scenario{Name: "three-arrivals-size2", QuotaMax: 1, QueueSize: 2, TTL: time.Second, Arrivals: []arrival{{"A", "lo", 0}, {"B", "hi", 0}, {"C", "lo", time.Millisecond}}})
 	}
 	return sc
